@@ -189,9 +189,11 @@ Plan generate(Rng &rng, const Opts &opts, uint64_t)
                 ++sid;
                 p.steps.push_back(mk(t, "FLATTEN", {sid, m, inst}));
             }
-        } else if (r < 90) {
+        } else if (r < 89) {
             p.steps.push_back(mk(t, "CLONE", {sid, ms[rng.below(ms.size())]}));
             ms.push_back(sid);
+        } else if (r < 94) {
+            p.steps.push_back(mk(t, "ANNOT", {sid, ms[rng.below(ms.size())], inst}));
         } else {
             p.steps.push_back(mk(t, "EQUALS", {sid, ms[rng.below(ms.size())], ms[rng.below(ms.size())]}));
         }
@@ -221,7 +223,7 @@ std::set<size_t> sliceFor(const Plan &p, size_t probe)
                 todo.push_back(it->second);
             }
         };
-        if (s.op == "PRINT" || s.op == "VALIDATE" || s.op == "ANALYSE" || s.op == "CLONE" || s.op == "GENERATE" || s.op == "RESOLVE" || s.op == "FLATTEN") {
+        if (s.op == "PRINT" || s.op == "VALIDATE" || s.op == "ANALYSE" || s.op == "CLONE" || s.op == "ANNOT" || s.op == "GENERATE" || s.op == "RESOLVE" || s.op == "FLATTEN") {
             dep(s.arg(1));
         }
         if (s.op == "EQUALS") {
@@ -313,6 +315,7 @@ struct World
     std::map<long, AnalyserPtr> analysers;
     std::map<long, GeneratorPtr> generators;
     std::map<long, ImporterPtr> importers;
+    std::map<long, AnnotatorPtr> annotators;
     std::map<std::string, Seen> seen; // call identity -> first observation
     std::map<std::string, std::string> lastResolve; // (importer instance, model) -> verdict and issues of the last resolveImports
     std::vector<Held> held;
@@ -539,6 +542,42 @@ void execute(const Plan &plan, Ctx &ctx)
             argDigest = dg(before);
             obs = obsNorm = dumpIssues(v);
             ctx.count("purity_validate");
+        } else if (s.op == "ANNOT") {
+            // Annotator lookups: read-only on the model; the answer depends on the model set and nothing else
+            auto it = w.models.find(s.arg(1));
+            if (it == w.models.end() || it->second == nullptr) {
+                continue;
+            }
+            long inst = s.arg(2);
+            ctx.begin(stepNo, "ANNOT", inst == 0 ? "fresh-instance" : "reused-instance");
+            AnnotatorPtr an = inst == 0 ? Annotator::create() : (w.annotators[inst] ? w.annotators[inst] : (w.annotators[inst] = Annotator::create()));
+            std::string before = dumpModel(it->second, withLinks);
+            an->setModel(it->second);
+            std::ostringstream o;
+            auto ids = an->ids();
+            o << "ids=" << ids.size() << " count=" << an->itemCount("") << "\n";
+            for (auto &id : ids) {
+                o << esc(id) << " n=" << an->itemCount(id) << " unique=" << an->isUnique(id);
+                for (auto &item : an->items(id)) {
+                    o << " [" << itemString(item) << "]";
+                }
+                auto one = an->item(id);
+                o << " item=" << itemString(one) << " issues{" << dumpIssues(an) << "}\n";
+            }
+            o << "dups:";
+            for (auto &d : an->duplicateIds()) {
+                o << " " << esc(d);
+            }
+            o << "\nmissing=" << itemString(an->item("no_such_id_x")) << " issues{" << dumpIssues(an) << "}\n";
+            checkLogger(ctx, an, "annotator", "item", true);
+            if (dumpModel(it->second, withLinks) != before) {
+                ctx.violate("C12", "input-mutated", "Annotator.lookups", "annotator lookups changed the model they were given");
+                return;
+            }
+            ident = "ANNOT|" + dg(before);
+            argDigest = dg(before);
+            obs = obsNorm = o.str();
+            ctx.count("purity_annotator_lookups");
         } else if (s.op == "ANALYSE") {
             auto it = w.models.find(s.arg(1));
             if (it == w.models.end()) {
@@ -788,7 +827,7 @@ std::vector<Plan> simplify(const Plan &p)
     // fresh instances instead of reused ones
     for (size_t i = 0; i < p.steps.size(); ++i) {
         const Step &s = p.steps[i];
-        size_t slot = s.op == "PARSE" || s.op == "PRINT" || s.op == "GENERATE" ? 3 : (s.op == "VALIDATE" || s.op == "ANALYSE" || s.op == "RESOLVE" || s.op == "FLATTEN" ? 2 : 0);
+        size_t slot = s.op == "PARSE" || s.op == "PRINT" || s.op == "GENERATE" ? 3 : (s.op == "VALIDATE" || s.op == "ANALYSE" || s.op == "RESOLVE" || s.op == "FLATTEN" || s.op == "ANNOT" ? 2 : 0);
         if (slot != 0 && s.arg(slot) != 0) {
             Plan q = p;
             q.steps[i].a[slot] = 0;
